@@ -5,6 +5,7 @@ import OmplModel.Proofs.InterleaveSchedules
 import OmplModel.Proofs.InterleaveRound2
 import OmplModel.Proofs.InterleavePrrtRun
 import OmplModel.Proofs.InterleaveConsole
+import OmplModel.Proofs.InterleaveAps
 /-!
 # C19 — concurrent use through the documented thread-safe surface is race-free
 
@@ -767,6 +768,37 @@ theorem console_split_log_stale_handler :
   refine ⟨[0, 0, 1, 0], by decide, by decide, fun js => ?_⟩
   exact (console_handlers_serialised [[.logG 0], [.useH 8]]
     (by intro t ht a ha; simp at ht; rcases ht with rfl | rfl <;> simp at ha <;> subst ha <;> simp [LStep.guarded]) (some 7) js).2.2
+
+/-! ## AnytimePathShortening: `bestCost_` against the stored paths (round 10b; model only — tied to the code by the
+extraction of `addPath`'s lock scope, no replay harness yet) -/
+
+/-- **Once `bestCost_` has been initialised, it is the cost of the cheapest stored path under every interleaving**: any
+family of threads (sub-planner threads and APS's own shortcut loop) calling `addPath`, every scheduler, complete or not,
+started from the state right after `bestCost_ = infiniteCost()`: `bestCost_` is never NaN again, it is the cost of a
+stored path and no stored path is cheaper. -/
+theorem aps_best_cost_is_min_of_stored (ts : List (List AStep)) (hts : ∀ t ∈ ts, ∀ a ∈ t, a.isReport) (is : List Nat) :
+    ABestIsMin (exec AStep.apply ts ⟨.inf, []⟩ is) := by
+  have hsteps : ∀ a ∈ trace ts is, a.isReport := by
+    intro a ha
+    obtain ⟨t, ht, hat⟩ := mem_trace _ _ a ha
+    exact hts t ht a hat
+  exact runSteps_preserves_of AStep.apply ABestIsMin AStep.isReport abest_step _ hsteps _
+    ⟨by simp, by intro c hc; simp at hc, by intro b hb; simp at hb⟩
+
+example : (exec AStep.apply [[.report false 9, .report false 4], [.report true 6, .report true 3]] ⟨.inf, []⟩
+    [0, 1, 0, 1]).stored = [9, 6, 4, 3] := by decide
+
+/-- **As coded, the initialisation can come after a report** (`solve()` starts the sub-planner threads before it executes
+`bestCost_ = opt->infiniteCost()`, and `clear()` left NaN): a sub-planner that reports 5 before the initialisation is
+compared against NaN — stored, not counted; the next report 7 then becomes `bestCost_` although a path of cost 5 is
+stored.  The returned solutions are unaffected (the problem definition orders its paths itself); what is off is
+`getBestCost()` and the `isSatisfied(bestCost_)` test, until APS's own loop re-adds the best path.  With the
+initialisation first (`aps_best_cost_is_min_of_stored`) this cannot happen. -/
+theorem aps_report_before_initialisation_not_counted :
+    ∃ is, Complete [[AStep.init], [.report false 5, .report false 7]] is ∧
+      (exec AStep.apply [[AStep.init], [.report false 5, .report false 7]] AStore.cleared is).best = .val 7 ∧
+      (exec AStep.apply [[AStep.init], [.report false 5, .report false 7]] AStore.cleared is).stored = [5, 7] :=
+  ⟨[1, 0, 1], by decide, by decide, by decide⟩
 
 /-- **The environment the replay driver runs meets the hypothesis of the pRRT theorems**: the brute-force nearest
 neighbour (`nearestOf`, what `nn_->nearest` must answer; the real answer is accepted as a hint only when it is a tree
